@@ -456,6 +456,7 @@ type playResult struct {
 	out     bfs.Outcome
 	curOp   int // index of the op being executed when the execution stopped
 	done    bool
+	inProbe bool
 	opTrace []string
 }
 
@@ -583,8 +584,52 @@ func play(sc scenario, h []Op, x *sched.X, pr *playResult) {
 		sort.Strings(s)
 		return strings.Join(s, ",")
 	}
-	pr.out = bfs.Outcome{Key: m.key() + "|A" + acc(hd.AppliedResourcePacks()) + "|P" + acc(hd.PendingResourcePacks()), Obs: m.key()}
+	key := m.key() + "|A" + acc(hd.AppliedResourcePacks()) + "|P" + acc(hd.PendingResourcePacks())
+	// The queues themselves are hidden inside the handler. Before two histories are merged the
+	// handler is drained by a fixed probe (final answers until nothing reacts any more) and what
+	// comes out — which queued instance is announced/prompted next, in which order — is part of
+	// the key, so a history that corrupted the hidden queue is not merged with a clean one.
+	pr.inProbe = true
+	key += "|probe:" + probe(x, hd, modern, byURL, o)
+	pr.out = bfs.Outcome{Key: key, Obs: m.key()}
 	pr.done = true
+}
+
+func probe(x *sched.X, hd resourcepack.Handler, modern bool, byURL map[string]*inst, o *obs) string {
+	var sb strings.Builder
+	name := func(list []string) string {
+		var out []string
+		for _, e := range list {
+			st, url, ok := strings.Cut(e, "|")
+			if !ok {
+				url, st = st, ""
+			}
+			out = append(out, st+byURL[url].attrs())
+		}
+		return strings.Join(out, ",")
+	}
+	ids := 1
+	if modern {
+		ids = 2
+	}
+	for p := 0; p < ids; p++ {
+		for n := 0; n < 10; n++ {
+			*o = obs{}
+			b := &resourcepack.ResponseBundle{Status: packet.SuccessfulResourcePackResponseStatus}
+			if modern {
+				b.ID = packIDs[p]
+			}
+			panicked, val := vrt.Catch(func() { _, _ = hd.OnResourcePackResponse(b) })
+			if x.Aborting() {
+				panic(val)
+			}
+			fmt.Fprintf(&sb, "%s/%s/%s/%v;", name(o.req), name(o.back), name(o.ev), panicked)
+			if panicked || (len(o.req) == 0 && len(o.ev) == 0) {
+				break
+			}
+		}
+	}
+	return sb.String()
 }
 
 func runHistory(sc scenario, h []Op) bfs.Outcome {
@@ -608,6 +653,9 @@ func runHistory(sc scenario, h []Op) bfs.Outcome {
 			kind = "livelock"
 		}
 		op := h[pr.curOp]
+		if pr.inProbe {
+			op = Op{K: "R", S: int(packet.SuccessfulResourcePackResponseStatus)} // the drain probe: an unsolicited/late final answer
+		}
 		pr2 := &playResult{}
 		_, trace := sched.Replay(sched.Options{Bound: 0}, f.Choices, func(x *sched.X) { play(sc, h, x, pr2) })
 		if len(trace) > 60 {
